@@ -104,9 +104,10 @@ package destination
 //@ // is handed to the spool's bulk input, in that order, nothing skipped
 //@ func (dest *Destination) collectRedo(conn *Conn)
 //@   property C07
+//@   spawn_checked
 //@   requires conn != nil && conn.keepSafe != nil && conn.In != nil && conn.numBuffered != nil && !conn.keepSafe.Mutex.held && conn.keepSafe.initialCap >= 0
 //@   requires conn.keepSafe.safeOld.arr != conn.keepSafe.safeRecent.arr || conn.keepSafe.safeOld.arr == 0
-//@   requires dest.spool != nil && dest.spool.InBulk != nil && !closed(dest.spool.InBulk) && dest.spool.InBulk != conn.In
+//@   requires dest.spool != nil && dest.spool.InBulk != nil && !closed(dest.spool.InBulk)
 //@   requires len(conn.keepSafe.safeOld) >= 0 && len(conn.keepSafe.safeRecent) >= 0
 //@   let k := conn.keepSafe
 //@   let S0 := sent(dest.spool.InBulk)
@@ -117,10 +118,11 @@ package destination
 //@
 //@ spec relayWf(dest *Destination) bool := destParamsOK(dest) && dest.In != nil && dest.numDropNoConnNoSpool != nil && dest.numDropSlowSpool != nil && dest.numDropSlowConn != nil
 //@      && dest.numDropNoConnNoSpool.ref != dest.numDropSlowSpool.ref && dest.numDropNoConnNoSpool.ref != dest.numDropSlowConn.ref && dest.numDropSlowSpool.ref != dest.numDropSlowConn.ref
-//@      && (dest.Spool ==> dest.spool != nil && dest.spool.InRT != nil && !closed(dest.spool.InRT))
+//@      && (dest.Spool ==> dest.spool != nil && dest.spool.InRT != nil && !closed(dest.spool.InRT) && dest.spool.InBulk != nil && !closed(dest.spool.InBulk))
 //@      && dest.flushErr != nil && !closed(dest.flushErr)
 //@ spec connWf(c *Conn) bool := c != nil ==> (c.In != nil && c.keepSafe != nil && c.flush != nil && c.flushErr != nil
-//@      && c.shutdown != nil && c.conn != nil && c.keepSafe.closed != nil && !c.upMutex.held && !c.keepSafe.Mutex.held)
+//@      && c.shutdown != nil && c.conn != nil && c.keepSafe.closed != nil && !c.upMutex.held && !c.keepSafe.Mutex.held
+//@      && c.numBuffered != nil && c.keepSafe.initialCap >= 0 && keepSafeInv(c.keepSafe) && len(c.keepSafe.safeOld) >= 0 && len(c.keepSafe.safeRecent) >= 0)
 //@ // channels of a live connection are open; each is created by its own make() and closed only by its owner
 //@ spec connOpen(c *Conn) bool := c != nil ==> (!closed(c.In) && !closed(c.flush) && !closed(c.flushErr) && !closed(c.shutdown) && !closed(c.keepSafe.closed))
 //@
@@ -267,6 +269,7 @@ package destination
 //@ // keepClean: a tick only ever discards lines that are at least one whole period old
 //@ func (k *keepSafe) keepClean()
 //@   property C07
+//@   spawn_checked
 //@   requires k.periodKeep > 0 && !k.Mutex.held && k.initialCap >= 0 && k.closed != nil
 //@   modifies *
 //@   loop 1:
@@ -325,7 +328,7 @@ package destination
 //@
 //@ func NewKeepSafe(initialCap int, periodKeep time.Duration) (k *keepSafe)
 //@   property C07,C14
-//@   requires initialCap >= 0
+//@   requires initialCap >= 0 && periodKeep > 0
 //@   modifies *
 //@   ensures[two_buffers; C07] k != nil && len(k.safeOld) == 0 && len(k.safeRecent) == 0 && k.safeOld.arr != k.safeRecent.arr && k.initialCap == initialCap && k.periodKeep == periodKeep && k.closed != nil && !k.Mutex.held
 //@
